@@ -1128,8 +1128,9 @@ class Interp:
         if isinstance(tgt, ast.Attribute) and tgt.attr == 'objective' and A_base(tt) in self.lp_problems:
             self.emit(Eff('setobj', fr.func, s, recv=tt[1], expr=v, name=NONE))
             return
-        if v[0] in ('list', 'comp', 'cat', 'accum', 'upd', 'call', 'top'):
-            # mutable containers / opaque values: later reads go through the access path itself
+        if v[0] in ('list', 'comp', 'cat', 'accum', 'upd', 'call', 'top') or (v[0] == 'bin' and v[1] == 'Mult' and 'list' in (v[2][0], v[3][0])):
+            # mutable containers / opaque values: later reads go through the access path itself (two attributes initialised
+            # with equal list expressions, e.g. [None] * n, are still two different lists)
             self.heap.pop(tt, None)
         else:
             self.heap[tt] = v
